@@ -242,6 +242,8 @@ def judgeMuxHist : Judge := liftJudge fun input obs => do
     | "reload" => (specs[i]?).map (fun g => (Sum.inl g, some i))
     | "req" => (reqs[i]?).map (fun q => (Sum.inr q, none))
     | _ => none
+  -- requests before the first reload are not executed by the harness (placeholder instance)
+  let ops := ops.dropWhile (fun o => match o.1 with | .inr _ => true | .inl _ => false)
   let want := histServe (emptyGen "") (ops.map (·.1))
   let got := (← getArr obs "out").toList.map parseOutcome
   let ok := got == want
